@@ -129,7 +129,11 @@ pub fn worker(ctx: &mut Ctx) {
             for _ in 0..ncalls {
                 rep_in.evaluations += 1;
                 let a = r.pick(&corpus.sentences).clone();
-                let mut text = match r.below(6) {
+                let mut text = match r.below(7) {
+                    6 => {
+                        let (a, b) = crate::c14::long_twins(&mut r, &corpus);
+                        format!("{a}.\n\n{b}.")
+                    }
                     0 => gen_unicode(&mut r, &corpus, 8),
                     1 => gen_clause(&mut r, &corpus, 8, 8),
                     2 => format!("{a} {}", r.pick_str(&custom_words)),
